@@ -195,10 +195,13 @@ class Conv:
                 rq = r
                 for _ in range(q - 1):
                     rq = rq * r
-                self.side.append(rq == b)
                 if q % 2 == 0:
+                    # total encoding: for a negative radicand nothing is known about r (numpy: NaN);
+                    # definedness is a separate obligation (paths.demand), never an assumption
+                    self.side.append(z3.Implies(b >= 0, rq == b))
                     self.side.append(r >= 0)
                 else:
+                    self.side.append(rq == b)
                     self.side.append(z3.Implies(b >= 0, r >= 0))
                     self.side.append(z3.Implies(b <= 0, r <= 0))
                 self.roots[key] = r
